@@ -226,7 +226,10 @@ TEMPLATES = (
     r"\{" + MAGIC_NOWIKI_CHAR + r"?\{((?:"
     r"[^{}]{?|"  # lone possible { and also default "any"
     r"}(?=[^{}])|"  # lone `}`, (?=...) is not consumed (lookahead)
-    r"-{}-|"  # GitHub issue #59 Chinese wiktionary special `-{}-`
+    # GitHub issue #59 Chinese wiktionary special `-{}-` is matched by the
+    # two alternatives above ("-{", "}", "-"); a separate alternative for it
+    # made the pattern ambiguous and unclosed "{{" followed by n placeholders
+    # took 2**n steps to reject.
     r"}{|"  # latex argument: "<math>\frac{1}{2}</math>"
     r")+?)\}" + MAGIC_NOWIKI_CHAR + r"?\}"
 )
